@@ -4,6 +4,7 @@ import (
 	"bytes"
 	"context"
 	"encoding/json"
+	"fmt"
 	"math"
 	"math/rand"
 	"net/http"
@@ -42,6 +43,8 @@ type framesScenario struct {
 	Frames   []frameSc `json:"frames"`
 	Cut      int       `json:"cut"`
 	Tail     string    `json:"tail"`
+	DoErr    bool      `json:"doerr"` // client side: HTTPClient.Do itself fails (no response at all)
+	Bidi     bool      `json:"bidi"` // handler side, stream shape: a bidi handler (results read unlatched)
 	Trailers string    `json:"trailers"`
 	Script   []int     `json:"script"`
 	EofWith  bool      `json:"eofwith"`
@@ -272,6 +275,11 @@ func runFrames(raw json.RawMessage, seed int64, rec *Rec) {
 		}
 		fake := &fakeHTTP{}
 		fake.respond = func(req *http.Request) (*http.Response, error) {
+			if s.DoErr {
+				// the transport fails before there is a response: in the model, the tail with nothing delivered
+				rec.Add(E("read", "k", 0, "e", s.Tail))
+				return nil, fmt.Errorf("Post %q: %w", req.URL, body.tailErr())
+			}
 			h := http.Header{}
 			h.Set("Content-Type", req.Header.Get("Content-Type"))
 			if s.Enc != "none" && s.Enc != "" {
@@ -314,7 +322,7 @@ func runFrames(raw json.RawMessage, seed int64, rec *Rec) {
 	// handler side: handlers are shared between scenarios (as in a real server); the per-scenario
 	// observation state travels in the request context
 	st := &framesHandlerState{rec: rec, table: table, out: []int{}}
-	h := framesHandler(unary, limit)
+	h := framesHandler(unary, limit, s.Bidi)
 	req := httptest.NewRequest(http.MethodPost, "http://verif.test/verif.v1.Svc/Method", body)
 	req.ProtoMajor, req.ProtoMinor = 2, 0
 	req.Header.Set("Content-Type", ct)
@@ -333,8 +341,12 @@ func runFrames(raw json.RawMessage, seed int64, rec *Rec) {
 		rec.Add(E("done", "ok", ok, "code", code, "out", out, "ran", ran, "alloc_kb", allocKB()))
 		return
 	}
+	after := st.after
+	if after == nil {
+		after = []int{}
+	}
 	rec.Add(E("done", "ok", seen == nil && ran == 1, "code", codeOf(seen), "out", out, "ran", ran,
-		"resp", responseCode(s.Proto, s.Raw, ct, rw), "alloc_kb", allocKB()))
+		"resp", responseCode(s.Proto, s.Raw, ct, rw), "alloc_kb", allocKB(), "after", after))
 }
 
 // responseCode decodes the recorded response with the reference codec: 0 success, else the error code;
@@ -359,14 +371,17 @@ type framesHandlerState struct {
 	out   []int
 	ran   int
 	seen  error
+	after []int
 }
 
 var framesHandlers sync.Map // key -> *connect.Handler
 
-func framesHandler(unary bool, limit int) *connect.Handler {
+func framesHandler(unary bool, limit int, bidi bool) *connect.Handler {
 	key := [2]int{0, limit}
 	if unary {
 		key[0] = 1
+	} else if bidi {
+		key[0] = 2
 	}
 	if h, ok := framesHandlers.Load(key); ok {
 		return h.(*connect.Handler)
@@ -382,6 +397,40 @@ func framesHandler(unary bool, limit int) *connect.Handler {
 			st.ran++
 			st.out = append(st.out, st.table.ID(r.Msg.Value))
 			return connect.NewResponse(&BV{}), nil
+		}, hopts...)
+	} else if bidi {
+		// a bidi handler reads the connection's results unlatched: after a failure it asks twice more
+		h = connect.NewBidiStreamHandler("/verif.v1.Svc/Method", func(ctx context.Context, bs *connect.BidiStream[BV, BV]) error {
+			st := ctx.Value(framesKey{}).(*framesHandlerState)
+			st.ran++
+			for {
+				m, err := bs.Receive()
+				if err != nil {
+					if !isEOF(err) {
+						st.seen = err
+					}
+					break
+				}
+				id := st.table.ID(m.Value)
+				st.out = append(st.out, id)
+				st.rec.Add(E("recv", "id", id))
+			}
+			if st.seen != nil {
+				// what two further Receives report after the failure is compared across the segmentations of the
+				// same bytes (C03): >= 0 a message id, -100 a clean end, -code an error
+				for i := 0; i < 2; i++ {
+					m, err := bs.Receive()
+					switch {
+					case err == nil:
+						st.after = append(st.after, st.table.ID(m.Value))
+					case isEOF(err):
+						st.after = append(st.after, -100)
+					default:
+						st.after = append(st.after, -codeOf(err))
+					}
+				}
+			}
+			return st.seen
 		}, hopts...)
 	} else {
 		h = connect.NewClientStreamHandler("/verif.v1.Svc/Method", func(ctx context.Context, cs *connect.ClientStream[BV]) (*connect.Response[BV], error) {
